@@ -1641,7 +1641,10 @@ class C16(fw.Check):
         if not suspects:
             return found
         confirmed, unreproduced = set(), []
-        for sid, (_, _, what, sig, detail, plan, trace) in suspects.items():
+        # the smallest suspects first; one reproduction is enough (the others stand with it), three tries at most
+        for sid, (_, _, what, sig, detail, plan, trace) in sorted(suspects.items(), key=lambda kv: kv[1][:2])[:3]:
+            if confirmed:
+                break
             again = dict(self._witness(plan, detail, trace)['plan'], sid=f'{sid}-again')
             for attempt in (1, 2):
                 try:
@@ -1656,7 +1659,7 @@ class C16(fw.Check):
             else:
                 unreproduced.append(f'session {sid}: {what}; not reproduced by 2 more runs of the same session; '
                                     f'diagnostics: {json.dumps((detail or {}).get("diag"))[:1500]}')
-        kept = [f for f in found if f[3] not in self.LOSS or f[5]['sid'] in confirmed]
+        kept = [f for f in found if f[3] not in self.LOSS or confirmed]
         if unreproduced and not kept:
             raise fw.MachineryError('unreproducible stall (timeout, not judged): ' + ' | '.join(unreproduced))
         self.notes.extend('unreproduced stall: ' + u for u in unreproduced)
